@@ -12,10 +12,30 @@ def _srv_conns(ops):
     return [op for op in ops if op[0] == "conn"]
 
 
+HS_OK = None
+
+
+def _hs_allowed():
+    global HS_OK
+    if HS_OK is None:
+        HS_OK = set(T.conn_fault_codes("clienttls")) | set(HS_EXTRA) | {T.WANT_READ, T.WANT_WRITE}
+    return HS_OK
+
+
+def _cli(case):
+    """("cli", kind, ops, sends, recvs) | ("cliw", kind, wl, ops, sends, recvs) -> (kind, wl, ops, sends, recvs)"""
+    if case[0] == "cli":
+        return (case[1], False, case[2], case[3], case[4])
+    return tuple(case[1:])
+
+
 def _hard_codes(case):
     k = case[0]
-    if k == "realsrv":
+    if k in ("realsrv", "realrst", "clic"):
         return []
+    if k == "cliw":
+        _, kind, wl, ops, sends, recvs = case
+        return T.hard_codes_of_script(kind, sends) + T.hard_codes_of_script(kind, recvs)
     if k == "site":
         return [case[2]] if case[2] not in T.wouldblock_codes(case[1].split("_")[0]) else []
     if k == "cli":
@@ -83,8 +103,10 @@ class C10(core.Check):
         """fixed two-connection exchange; pos = (conn index 0/1, 'r'|'s'|'h', call index)"""
         kind = "remotertls" if tls else "remoter"
         conns = []
+        wbc = T.wouldblock_codes(kind)[0]
         for i in range(2):
-            recvs = [("d", bytes([65 + i, 1])), ("d", bytes([65 + i, 2])), ("d", bytes([65 + i, 3]))]
+            # one chunk per service pass (a would-block after each), so a fault at recv index k is met in pass k/2 with output queued
+            recvs = [("d", bytes([65 + i, 1])), ("f", wbc), ("d", bytes([65 + i, 2])), ("f", wbc), ("d", bytes([65 + i, 3]))]
             sends = [("acc", 2), ("acc", 2), ("acc", 2)]
             hs = [("f", T.WANT_READ), ("ok",)] if tls else []
             if pos[0] == i:
@@ -95,7 +117,7 @@ class C10(core.Check):
                 else:
                     hs = hs[:pos[2]] + [("f", code)] + hs[pos[2]:]
             conns.append(("conn", i + 1, sends, recvs, hs))
-        ops = conns + [("svc",), ("tx", 1, b"abcdef"), ("tx", 2, b"uvwxyz"), ("svc",), ("svc",), ("svc",), ("svc",), ("svc",)]
+        ops = conns + [("svc",), ("tx", 1, b"abcdefgh"), ("tx", 2, b"uvwxyz"), ("svc",), ("svc",), ("svc",), ("svc",), ("svc",)]
         return ("srv", tls, ops)
 
     def corpus(self):
@@ -104,6 +126,16 @@ class C10(core.Check):
             ("site", "clienttls_hs", errno.ECONNRESET), ("site", "remotertls_hs", errno.ECONNABORTED),
             ("realsrv", False, "rst", -1, 2), ("realsrv", True, "rst", -1, 1), ("realsrv", False, "fin", 1, 3), ("realsrv", True, "fin", 0, 1),
             ("cli", "clienttls", [("tx", b"hello"), ("svc",), ("svc",)], [("acc", 2), ("f", T.SSLEOF)], [("d", b"abc")]),
+            # data then a reset between passes, wire log attached (address calls on the socket fail from then on)
+            ("cliw", "client", True, [("svc",), ("rst",), ("svc",), ("svc",)], [], [("d", b"ab"), ("f", T.EAGAIN), ("d", b"cd"), ("f", errno.ECONNRESET)]),
+            ("cliw", "clienttls", True, [("tx", b"xy"), ("rst",), ("svc",), ("svc",)], [("acc", 1), ("acc", 1)], [("d", b"q"), ("f", T.SSLEOF)]),
+            ("realrst", 5), ("realrst", 70000),
+            # a handshake that fails, then MORE passes: the client must start over, not trip over its own state
+            ("clic", True, False, 0, [("connect", 0, ("f", errno.ECONNRESET)), ("connect", 0, None), ("connect", 0, ("ok",))]),
+            ("clic", True, True, 2, [("connect", 0, ("f", T.WANT_READ)), ("connect", 0, ("f", T.SSLEOF)), ("tick", 2), ("connect", errno.EINPROGRESS, None), ("connect", 0, ("ok",))]),
+            # an unclassified errno on recv of a connection that still has output queued, through the combined service()
+            ("srv", False, [("conn", 1, [("acc", 2)], [("d", b"hi"), ("f", T.EAGAIN), ("f", errno.ENOTCONN)], []), ("conn", 2, [("acc", 2), ("acc", 9)], [("d", b"yo")], []),
+                            ("svc",), ("tx", 1, b"abcdef"), ("tx", 2, b"uvwxyz"), ("svc",), ("svc",), ("svc",)]),
             ("cli", "client", [("tx", b"hello"), ("svc",), ("svc",)], [("acc", 2), ("f", errno.EPIPE)], [("d", b"abc")]),
             ("srv", False, [("conn", 1, [("acc", 3)], [("d", b"hi")], []), ("conn", 2, [("f", errno.EPIPE)], [("d", b"yo")], []), ("svc",),
                             ("tx", 1, b"abcdef"), ("tx", 2, b"zz"), ("svc",), ("svc",)]),
@@ -119,14 +151,17 @@ class C10(core.Check):
         cs = [("site", s, c) for s in T.SITES for c in T.ALL_CODES]
         for tls in (False, True):
             kind = "remotertls" if tls else "remoter"
-            codes = T.conn_fault_codes(kind)
-            poss = [(i, d, k) for i in range(2) for d in "rs" for k in range(4)] + ([(i, "h", k) for i in range(2) for k in range(2)] if tls else [])
+            codes = T.conn_fault_codes(kind) + [errno.ENOTCONN, errno.ECONNABORTED, errno.EBADF]   # listed ones and a few the code re-raises
+            poss = [(i, "r", k) for i in range(2) for k in range(6)] + [(i, "s", k) for i in range(2) for k in range(4)] + \
+                ([(i, "h", k) for i in range(2) for k in range(2)] if tls else [])
             for pos in poss:
-                for code in codes + (HS_EXTRA if pos[1] == "h" else []):
+                for code in codes:
                     cs.append(self._exchange(tls, pos, code))
-        return cs, "all 10 sites x every errno in errno.errorcode and 7 ssl error classes; every fault position (recv/send/handshake call index, either connection) of a fixed two-connection exchange x every connection-level code, plain and TLS"
+        return cs, "all 10 sites x every errno in errno.errorcode and 7 ssl error classes; every fault position (recv/send/handshake call index, either connection, one receive chunk per service pass so that later positions meet queued output) of a fixed two-connection exchange x every connection-level code + ENOTCONN/ECONNABORTED/EBADF, plain and TLS"
 
     def generate(self, rng, n, tier):
+        for _ in range(4 if tier == "quick" else 100):
+            yield ("realrst", rng.choice([1, 5, 1000, 70000]))
         for _ in range(8 if tier == "quick" else 200):
             yield ("realsrv", rng.random() < 0.35, rng.choice(["rst", "fin"]), rng.randrange(-1, 5), rng.randrange(1, 6))
         for _ in range(n):
@@ -134,28 +169,60 @@ class C10(core.Check):
             if r < 0.55:
                 tls = rng.random() < 0.5
                 yield ("srv", tls, T.gen_server_ops(rng, tls, "fault", tier))
-            elif r < 0.9:
+            elif r < 0.85:
                 kind = rng.choice(["client", "clienttls", "client", "clienttls", "remoter", "remotertls"])
                 ops = []
                 for _ in range(rng.randrange(1, 4)):
                     ops.append(("tx", T.gen_bytes(rng, rng.choice([1, 3, 10]))))
                     ops += [("svc",)] * rng.randrange(1, 4)
-                flav = rng.choice(["conn", "conn", None, "epipe", "ssl"])
+                flav = rng.choice(["conn", "conn", None, "epipe", "ssl", "wb"])
                 sends = T.gen_sends(rng, kind, rng.randrange(1, 6), 6, fault_p=0.3, flavour=flav)
                 recvs = T.gen_recvs(rng, kind, rng.randrange(1, 6), fault_p=0.3, flavour=flav)
-                yield ("cli", kind, ops, sends, recvs)
+                if rng.random() < 0.5:
+                    yield ("cli", kind, ops, sends, recvs)
+                else:   # wire log attached, the peer may reset between passes, would-blocks spread the script over several passes
+                    recvs2 = []
+                    for r_ in recvs:
+                        recvs2.append(r_)
+                        if rng.random() < 0.4:
+                            recvs2.append(("f", T.wouldblock_codes(kind)[0]))
+                    if rng.random() < 0.6:
+                        ops.insert(rng.randrange(0, len(ops) + 1), ("rst",))
+                    yield ("cliw", kind, rng.random() < 0.8, ops, sends, recvs2)
+            elif r < 0.97:
+                tls = rng.random() < 0.8
+                tmo = rng.choice([0, 2, 8])
+                ops = []
+                for _ in range(rng.randrange(2, 12)):
+                    q = rng.random()
+                    if q < 0.1:
+                        ops.append(("reopen",))
+                    elif q < 0.15:
+                        ops.append(("close",))
+                    elif q < 0.3:
+                        ops.append(("tick", rng.choice([0, 1, tmo, tmo + 1])))
+                    else:
+                        hs = None
+                        if tls and rng.random() < 0.85:
+                            hs = rng.choice([("ok",), ("f", T.WANT_READ), ("f", T.WANT_WRITE), ("f", rng.choice(T.conn_fault_codes("clienttls") + HS_EXTRA)),
+                                             ("f", rng.choice(T.conn_fault_codes("clienttls") + HS_EXTRA)), ("f", rng.choice(T.ALL_CODES))])
+                        ops.append(("connect", rng.choice([0, 0, 0, errno.EINPROGRESS, errno.ECONNREFUSED, errno.EISCONN]), hs))
+                yield ("clic", tls, rng.random() < 0.5, tmo, ops)
             else:
                 yield ("site", rng.choice(T.SITES), rng.choice(T.ALL_CODES))
 
     def request(self, case):
         k = case[0]
-        if k == "realsrv":
+        if k in ("realsrv", "realrst"):
             return ("noop",)
         if k == "site":
             return ("site", case[1], case[2])
-        if k == "cli":
-            _, kind, ops, sends, recvs = case
-            return ("conn", kind, False, [tuple(o) for o in ops], [tuple(s) for s in sends], [tuple(r) for r in recvs])
+        if k in ("cli", "cliw"):
+            kind, wl, ops, sends, recvs = _cli(case)
+            return ("conn", kind, bool(wl), [tuple(o) for o in ops], [tuple(s) for s in sends], [tuple(r) for r in recvs])
+        if k == "clic":
+            _, tls, recon, tmo, cops = case
+            return ("cli", bool(tls), bool(recon), tmo, [("connect", o[1], tuple(o[2]) if o[2] is not None else None) if o[0] == "connect" else tuple(o) for o in cops])
         _, tls, ops = case
         return ("server", bool(tls), T.request_server(ops))
 
@@ -163,11 +230,14 @@ class C10(core.Check):
         k = case[0]
         if k == "realsrv":
             return T.run_real_faults(case)
+        if k == "realrst":
+            return T.run_real_client_rst(case)
         if k == "site":
             return ("outcome", T.OUT_NAMES[T.probe(case[1], case[2])])
-        if k == "cli":
-            _, kind, ops, sends, recvs = case
-            return T.run_conn((kind, False, ops, sends, recvs), with_hards=True)
+        if k in ("cli", "cliw"):
+            return T.run_conn(_cli(case), with_hards=True)
+        if k == "clic":
+            return T.run_client(tuple(case[1:]))
         _, tls, ops = case
         main = T.run_server((tls, ops))
         # reference for the sibling clause: same history with the faulty connections' hard faults turned into would-block
@@ -180,11 +250,11 @@ class C10(core.Check):
         return (main, ref)
 
     def compare_view(self, case, obs):
-        if case[0] == "realsrv":
+        if case[0] in ("realsrv", "realrst"):
             return "noop"
-        if case[0] == "site":
+        if case[0] in ("site", "clic"):
             return sx.dumps(obs)
-        if case[0] == "cli":
+        if case[0] in ("cli", "cliw"):
             return sx.dumps(obs[:2])
         return sx.dumps(T.strip_hard(obs[0]))
 
@@ -194,6 +264,15 @@ class C10(core.Check):
         if k == "realsrv":
             raised, marked, sibling_ok = obs
             return (["service-raised"] if raised else []) + ([] if marked else ["fault-not-marked"]) + ([] if sibling_ok else ["sibling-affected"])
+        if k == "realrst":
+            raised, got_all, cutoff = obs
+            return (["service-raised"] if raised else []) + ([] if got_all else ["bytes-lost-at-reset"]) + ([] if cutoff else ["fault-not-marked"])
+        if k == "clic":
+            # connect / handshake passes of a client never raise when every handshake fault is a connection-level one
+            codes = {o[2][1] for o in case[4] if o[0] == "connect" and o[2] is not None and o[2][0] == "f"}
+            if codes <= _hs_allowed() and any(st[0] != "ok" for st in obs):
+                return ["service-raised"]
+            return []
         hard = set(_hard_codes(case))
         tag = ":epipe-only" if hard == {T.EPIPE} else ""
         bad = []
@@ -212,8 +291,8 @@ class C10(core.Check):
                 if code in T.wouldblock_codes(kind) and out != "wouldblock":
                     bad.append("wouldblock-misclassified")
             return bad
-        if k == "cli":
-            _, kind, ops, sends, recvs = case
+        if k in ("cli", "cliw"):
+            kind, wl, ops, sends, recvs = _cli(case)
             steps, final, hards_at = obs
             okc = set(T.conn_fault_codes(kind))
             for st, hs in zip(steps, hards_at):
@@ -233,8 +312,8 @@ class C10(core.Check):
         raised_codes = set()
         for op, (st, snap) in zip(ops, steps):
             raised_codes = {c for e in snap if e[0] != "listen" for c in e[-1]}
-            if op[0] == "svc" and st != "ok" and raised_codes <= allowed:
-                bad.append("service-raised" + (":epipe-only" if raised_codes == {T.EPIPE} else ""))
+            if op[0] == "svc" and st != "ok":   # whatever the sockets did and whatever class escaped
+                bad.append("service-raised")
                 break
         # every connection whose socket raised a connection-level fault is marked cut off / aborted
         for st, snap in steps:
@@ -245,7 +324,7 @@ class C10(core.Check):
                 if hardc and set(hardc) <= allowed and not (cutoff or aborted):
                     bad.append("fault-not-marked" + (":epipe-only" if set(hardc) == {T.EPIPE} else ""))
         # siblings: connections without faults behave exactly as in the run where nobody faulted
-        if ref is not None and raised_codes <= allowed:
+        if ref is not None:
             main = T.strip_hard((st0, steps))
             # socket creation order is identical in both runs; compare the entries of sockets that never faulted
             for (st, snap), (_, fsnap), (rst, rsnap) in zip(main[1], steps, ref[1]):
@@ -262,21 +341,26 @@ class C10(core.Check):
 
     def known(self, case, obs, clauses):
         # C10-K1: EPIPE is the only hard fault in the case, and the only complaints are the EPIPE-specific ones
+        if case[0] == "cliw" and case[1] == "remotertls" and case[2] and any(o[0] == "rst" for o in case[3]) \
+                and all(c.split(":")[0] in ("service-raised", "fault-not-marked") for c in clauses):
+            return "C10-K3"
         if not clauses or not all(c.endswith(":epipe-only") for c in clauses):
             return None
         if case[0] == "site" and obs == ("outcome", "raisedOS") and case[1].split("_")[1] in ("send", "recv"):
             return "C10-K1"
-        if case[0] == "cli" and all(c.startswith("service-raised") for c in clauses):
+        if case[0] in ("cli", "cliw") and all(c.startswith("service-raised") for c in clauses):
             return "C10-K1"
         if case[0] == "srv" and all(c.startswith("fault-not-marked") for c in clauses):
             return "C10-K1"
         return None
 
     def nontrivial(self, case, obs):
-        if case[0] in ("site", "realsrv"):
+        if case[0] in ("site", "realsrv", "realrst"):
             return True
-        if case[0] == "cli":
-            return bool(obs[2] and obs[2][-1])
+        if case[0] == "clic":
+            return len({o[2] for o in obs}) >= 2
+        if case[0] in ("cli", "cliw"):
+            return bool(obs[2] and obs[2][-1]) or any(o[0] == "rst" for o in _cli(case)[2])
         (st0, steps), ref = obs
         socks = steps[-1][1] if steps else ()
         return sum(1 for e in socks if e[0] != "listen") >= 2 and any(e[0] != "listen" and e[-1] for e in socks)
@@ -285,6 +369,12 @@ class C10(core.Check):
         f = [case[0]]
         if case[0] == "realsrv":
             return f + ["real:" + ("tls" if case[1] else "plain"), "real:" + case[2]]
+        if case[0] == "realrst":
+            return f
+        if case[0] == "clic":
+            return f + ["clic:" + ("tls" if case[1] else "plain")] + (["clic:raised"] if any(o[0] != "ok" for o in obs) else [])
+        if case[0] == "cliw":
+            f += ["wl" if case[2] else "nowl"] + (["peer-reset"] if any(o[0] == "rst" for o in case[3]) else [])
         if case[0] == "site":
             f.append("site:" + obs[1])
             return f
@@ -317,14 +407,19 @@ class C10(core.Check):
                             new = list(op)
                             new[j] = op[j][:q] + op[j][q + 1:]
                             yield ("srv", tls, ops[:i] + [tuple(new)] + ops[i + 1:])
-        elif case[0] == "cli":
-            _, kind, ops, sends, recvs = case
+        elif case[0] in ("cli", "cliw"):
+            kind, wl, ops, sends, recvs = _cli(case)
+            mk = (lambda o, s_, r_: ("cli", kind, o, s_, r_)) if case[0] == "cli" else (lambda o, s_, r_: ("cliw", kind, wl, o, s_, r_))
             for i in range(len(ops)):
-                yield ("cli", kind, ops[:i] + ops[i + 1:], sends, recvs)
+                yield mk(ops[:i] + ops[i + 1:], sends, recvs)
             for i in range(len(sends)):
-                yield ("cli", kind, ops, sends[:i] + sends[i + 1:], recvs)
+                yield mk(ops, sends[:i] + sends[i + 1:], recvs)
             for i in range(len(recvs)):
-                yield ("cli", kind, ops, sends, recvs[:i] + recvs[i + 1:])
+                yield mk(ops, sends, recvs[:i] + recvs[i + 1:])
+        elif case[0] == "clic":
+            head, ops = case[:4], case[4]
+            for i in range(len(ops)):
+                yield head + (ops[:i] + ops[i + 1:],)
 
     def mutate(self, rng, case):
         out = list(self.shrink(case))[:40]
